@@ -37,6 +37,7 @@ const (
 	vScanner                 // the scanner itself
 	vPos                     // s.curIndex - off
 	vRedispatch              // the result of s.step(s, c)
+	vInt                     // a known integer constant (off)
 )
 
 type val struct {
@@ -453,10 +454,16 @@ func (m *Machine) expr(e ast.Expr, f frame, ctx *fnctx) []exprVal {
 		if k, ok := m.constByte(x); ok {
 			return one(val{k: vConstByte, kb: k})
 		}
+		if k, ok := m.constInt(x); ok {
+			return one(val{k: vInt, off: k})
+		}
 		return one(val{})
 	case *ast.BasicLit:
 		if k, ok := m.constByte(x); ok {
 			return one(val{k: vConstByte, kb: k})
+		}
+		if k, ok := m.constInt(x); ok {
+			return one(val{k: vInt, off: k})
 		}
 		return one(val{})
 	case *ast.SelectorExpr:
@@ -499,6 +506,18 @@ func (m *Machine) expr(e ast.Expr, f frame, ctx *fnctx) []exprVal {
 				v := val{}
 				if k, ok := m.constInt(x.Y); ok && ev.v.k == vPos {
 					v = val{k: vPos, off: ev.v.off + k}
+				} else if ev.v.k == vPos {
+					// the distance is a parameter of a helper bound to a constant
+					if id, isID := ast.Unparen(x.Y).(*ast.Ident); isID {
+						if b, bound := ev.f.env[info.ObjectOf(id)]; bound {
+							switch b.k {
+							case vInt:
+								v = val{k: vPos, off: ev.v.off + b.off}
+							case vConstByte:
+								v = val{k: vPos, off: ev.v.off + int(b.kb)}
+							}
+						}
+					}
 				}
 				out = append(out, exprVal{ev.f, v})
 			}
@@ -565,6 +584,32 @@ func (m *Machine) call(call *ast.CallExpr, f frame, ctx *fnctx) []result {
 				return []result{{f: f, vals: m.opaqueResults(info.TypeOf(call)), pos: pos}}
 			}
 		}
+	}
+	// a call through the result of a helper: `s.leave()(s, c)` where the helper made a step
+	// current and handed it back
+	if inner, ok := ast.Unparen(call.Fun).(*ast.CallExpr); ok && callee == nil {
+		var out []result
+		for _, ev := range m.expr(inner, f, ctx) {
+			g := ev.f
+			okDispatch := false
+			switch ev.v.k {
+			case vStepCur:
+				okDispatch = true
+			case vPopped:
+				okDispatch = lastStepIsPop(g)
+			case vState:
+				last, has := lastGoto(g)
+				okDispatch = has && last == ev.v.st
+			}
+			if okDispatch && m.argsAreSC(call, g, ctx) {
+				m.Counts["redispatch-dynamic"]++
+				out = append(out, result{f: g, vals: []val{{k: vRedispatch}}, pos: pos})
+			} else {
+				m.problem(pos, "return of a call through an unresolved function value")
+				out = append(out, result{f: g, vals: m.opaqueResults(info.TypeOf(call)), pos: pos})
+			}
+		}
+		return out
 	}
 	if callee == nil {
 		callee = m.callee(call)
